@@ -467,6 +467,7 @@ func c09(r *mon.R) {
 					c09TBLS(r, j)
 				case "bdn":
 					c09BDN(r, j)
+					c09BDNDup(r, j)
 				case "cosi":
 					c09CoSi(r, j)
 				}
